@@ -69,6 +69,7 @@ MC_DEPS = {
     "Small": ["Hashbrown.tla", "Griddle.tla", "GriddleCount.tla", "MCGriddle.tla"],
     "CountR8": ["Hashbrown.tla", "GriddleCount.tla", "MCCount.tla"],
     "Fault": ["Hashbrown.tla", "Griddle.tla", "GriddleCount.tla", "MCGriddle.tla"],
+    "Iter": ["Hashbrown.tla", "Griddle.tla", "GriddleCount.tla", "MCGriddle.tla", "MCIter.tla"],
     "Overflow": ["Hashbrown.tla", "GriddleCount.tla", "MCCount.tla"],
     "OverflowDbg": ["Hashbrown.tla", "GriddleCount.tla", "MCCount.tla"],
 }
@@ -77,6 +78,11 @@ MC = {
     "Small": {
         "quick": ("MCGriddle", "MCSmall", 6, 900),
         "thorough": ("MCGriddle", "MCSmall6", 12, 7200),
+    },
+    # drain_filter as a process holding a raw iterator across removals that may free the old table
+    "Iter": {
+        "quick": ("MCIter", "MCIter", 4, 900),
+        "thorough": ("MCIter", "MCIter5", 8, 3600),
     },
     "Fault": {
         "quick": ("MCGriddle", "MCFault", 6, 900),
@@ -104,14 +110,14 @@ PROPS = {
     "C02": dict(suites=["sim_plain", "sim_heap", "big_plain", "big_heap", "big_collide", "tomb_plain", "tomb_heap", "core_plain", "rel_plain", "core_heap", "defects"], mc=["CountR8"]),
     "C03": dict(suites=["sim_plain", "sim_heap", "big_plain", "big_heap", "big_collide", "tomb_plain", "tomb_heap", "core_plain", "core_heap", "rel_plain", "set_heap", "defects"], mc=["Small", "CountR8"]),
     "C04": dict(suites=["sim_plain", "sim_heap", "big_plain", "big_heap", "big_collide", "tomb_plain", "tomb_heap", "core_plain", "rel_plain", "limits_dbg", "limits_rel", "two_heap", "defects"], mc=["Small", "CountR8"], apalache=True),
-    "C05": dict(suites=["sim_plain", "sim_heap", "fault_heap", "fault_heap_rel", "tomb_plain", "tomb_heap", "core_heap", "rel_heap", "core_zst", "set_heap", "set_zst", "two_heap", "two_plain_rel", "defects"], mc=["Small", "CountR8"], asan=["two_heap", "two_plain_rel", "core_heap", "fault_heap", "set_heap", "tomb_heap", "defects"], miri=True),
+    "C05": dict(suites=["sim_plain", "sim_heap", "fault_heap", "fault_heap_rel", "tomb_plain", "tomb_heap", "core_heap", "rel_heap", "core_zst", "set_heap", "set_zst", "two_heap", "two_plain_rel", "defects"], mc=["Iter", "Small", "CountR8"], asan=["two_heap", "two_plain_rel", "core_heap", "fault_heap", "set_heap", "tomb_heap", "defects"], miri=True),
     "C06": dict(suites=["entry_heap", "entry_plain", "core_heap", "rel_heap", "two_heap", "set_heap", "set_two", "defects"], mc=["Small"]),
     # after an injected panic *every* monitor is part of "the map stays memory-safe and self-consistent,
     # later operations behave normally": any failure in these suites counts for C07
     "C07": dict(suites=["fault_heap", "fault_heap_rel", "fault_plain", "fault_two", "fault_set", "fault_zst", "defects"], mc=["Fault"],
                 any_monitor=True),
     "C08": dict(suites=["core_heap", "rel_heap", "core_plain", "set_heap", "core_zst"], mc=["Small"]),
-    "C09": dict(suites=["core_heap", "rel_heap", "core_plain", "set_heap", "set_zst"], mc=["Small"]),
+    "C09": dict(suites=["core_heap", "rel_heap", "core_plain", "set_heap", "set_zst"], mc=["Iter", "Small"]),
     "C10": dict(suites=["sim_plain", "sim_heap", "limits_dbg", "limits_rel", "core_plain", "rel_plain", "set_heap", "defects"], mc=["CountR8", "Overflow", "OverflowDbg"]),
     # the two-slot suites exist to exercise clone / clone_from followed by divergent histories: there,
     # any failed monitor (a lookup missing in the clone, an effect seen through the other map, ...) is C11's
